@@ -37,10 +37,10 @@ def make_echo(nout, log=None):
     """func(model, X, args=..., **kw) -> exact encoding of what it was given:
     row b = [char code of X[b] at every position ..., first value of every arg row b ...], output k = row*(k+1)+k"""
 
-    def echo(model, X, args=None, **kw):
+    def echo(model, X, args=None, bias=0, **kw):
         B = X.shape[0]
         w = torch.arange(1, X.shape[1] + 1, dtype=torch.float64)[None, :, None]
-        row = (X.to(torch.float64) * w).sum(dim=1)
+        row = (X.to(torch.float64) * w).sum(dim=1) + float(bias)
         if args is not None:
             for a in args:
                 if a.shape[0] != B:
@@ -54,8 +54,8 @@ def make_echo(nout, log=None):
     return echo
 
 
-def echo_expected(s, argrow, nout):
-    row = [float(ALPHA.index(c) + 1) if c in ALPHA else 0.0 for c in s] + [float(v) for a in argrow for v in a]
+def echo_expected(s, argrow, nout, bias=0):
+    row = [float(ALPHA.index(c) + 1) + bias if c in ALPHA else 0.0 + bias for c in s] + [float(v) for a in argrow for v in a]
     return [torch.tensor([v * (k + 1) + k for v in row], dtype=torch.float64) for k in range(nout)]
 
 
@@ -66,6 +66,7 @@ class Env:
         self.B, self.L = len(self.seqs), len(self.seqs[0])
         self.nout = case["nout"]
         self.kind = case["func"]
+        self.bias = 0
         self.argvals = case.get("args") or []          # list over args of list over examples of list of ints
         self.X = gen.encode_batch(self.seqs, ALPHA, gen.DTYPES[case.get("dtype", "float64")])
         self.args = tuple(torch.tensor(a, dtype=torch.int64) for a in self.argvals)
@@ -91,7 +92,7 @@ class Env:
     def expect(self, s, argrow, L=None):
         """list over outputs of the 1-D expected output for sequence string s with arg rows argrow"""
         if self.kind == "echo":
-            return echo_expected(s, argrow, self.nout)
+            return echo_expected(s, argrow, self.nout, self.bias)
         if self.kind == "dls":
             import copy
             import warnings
@@ -128,14 +129,33 @@ def _cmp(got, want, clause, where):
 
 
 def wrapper_case(case, ctx):
+    """With the echo func every wrapper is called twice on the same inputs: first with an extra keyword for func (`bias`, routed
+    through **kwargs or additional_func_kwargs), then without it - a keyword of an earlier call must not leak into a later one."""
+    if case["func"] == "echo" and case.get("bias"):
+        first = dict(case)
+        _one_call(first, ctx, bias=case["bias"], via=case.get("bias_via", "kwargs"), record=False)
+        ctx.label("second_call_after_keyword_call")
+    _one_call(case, ctx, bias=0, via=None, record=True)
+
+
+def _one_call(case, ctx, bias, via, record):
     env = Env(case)
+    env.bias = bias
     op = case["op"]
     B, L, nout = env.B, env.L, env.nout
     Xc = env.X.clone()
     kw = dict(env.fkw)
     if env.args:
         kw["args"] = env.args
-    ctx.label(op, "func_" + env.kind, "nout_%d" % nout, "nargs_%d" % len(env.args))
+    afk = None
+    if bias:
+        if via == "kwargs":
+            kw["bias"] = bias
+        else:
+            afk = {"bias": bias}
+            kw["additional_func_kwargs"] = afk
+    if record:
+        ctx.label(op, "func_" + env.kind, "nout_%d" % nout, "nargs_%d" % len(env.args))
     nt = False
 
     if op == "marginalize":
@@ -246,7 +266,8 @@ def wrapper_case(case, ctx):
             outs = [[2 + k] for k in range(nout)]
             env.model = ExactNet(4, L, outs, n_args=len(T), seed=case["seed"], container="tensor" if nout == 1 else case.get("container", "tuple"))
         fn = apply_pairwise if op == "pairwise" else apply_product
-        y = sut(fn, env.func, env.model, env.X, T, batch_size=bs, device="cpu")
+        pk = {k_: v_ for k_, v_ in kw.items() if k_ in ("bias", "additional_func_kwargs")}
+        y = sut(fn, env.func, env.model, env.X, T, batch_size=bs, device="cpu", **pk)
         y = _outs(y, nout, op)
         sizes = [len(a) for a in pargs]
         if op == "pairwise":
@@ -267,7 +288,10 @@ def wrapper_case(case, ctx):
     else:
         raise ValueError(op)
     require(torch.equal(env.X, Xc), op + "-input-modified", "")
-    ctx.nt(nt)
+    if afk is not None:
+        require(afk == {"bias": bias}, op + "-caller-dict-modified", lambda: "additional_func_kwargs became %r" % (afk,))
+    if record:
+        ctx.nt(nt)
 
 
 def _args(draw, B, nargs):
@@ -293,7 +317,8 @@ def strategy(draw):
         nout = 1
     case = {"op": op, "seqs": seqs, "nout": nout, "func": func,
             "seed": draw(st.integers(0, 10 ** 6)), "dtype": draw(st.sampled_from(["float64", "float32", "int8"])),
-            "batch_size": draw(st.integers(1, 7)), "container": draw(st.sampled_from(["tuple", "list"]))}
+            "batch_size": draw(st.integers(1, 7)), "container": draw(st.sampled_from(["tuple", "list"])),
+            "bias": draw(st.sampled_from([0, 0, 3, 7])), "bias_via": draw(st.sampled_from(["kwargs", "additional_func_kwargs"]))}
     if func == "dls":
         case["arch"] = draw(nets.arch_strategy(L, max_blocks=2, n_targets=2))
         case["rs"] = draw(st.integers(0, 10 ** 6))
